@@ -21,6 +21,8 @@ from .flags import (
 
 from pycoin.coins.SolutionChecker import ScriptError
 
+from .intops import pop_check_bounds
+
 
 def _check_valid_signature_1(sig: list[int]) -> None:
     ls = len(sig)
@@ -207,13 +209,13 @@ def do_OP_CHECKSIG(vm: Any) -> None:
 
 
 def do_OP_CHECKMULTISIG(vm: Any) -> None:
-    key_count = vm.pop_int()
+    key_count = pop_check_bounds(vm)
     if key_count < 0 or key_count > 20:
         raise ScriptError("key_count not in range 0 to 20", errno.PUBKEY_COUNT)
     public_pair_blobs = [vm.pop() for _ in range(key_count)]
     public_pair_blobs.reverse()
 
-    signature_count = vm.pop_int()
+    signature_count = pop_check_bounds(vm)
     if signature_count < 0 or signature_count > key_count:
         raise ScriptError(
             "invalid number of signatures: %d for %d keys"
